@@ -476,25 +476,16 @@ def trajectory_to_volume(
     assert coords.min() >= 0
     assert coords.max() < 1
 
-    x0 = y0 = z0 = 0
-    x1 = y1 = z1 = 1
-
     nx = int(1 + lattice.lengths[0] // resolution)
     ny = int(1 + lattice.lengths[1] // resolution)
     nz = int(1 + lattice.lengths[2] // resolution)
 
-    # Drop first item, because bins are open-ended on left side
-    xbins = np.linspace(x0, x1, nx)[1:]
-    ybins = np.linspace(y0, y1, ny)[1:]
-    zbins = np.linspace(z0, z1, nz)[1:]
-
-    digitized_coords = np.vstack(
-        [
-            np.digitize(coords[:, 0], bins=xbins),
-            np.digitize(coords[:, 1], bins=ybins),
-            np.digitize(coords[:, 2], bins=zbins),
-        ]
-    ).T
+    # Voxel index is floor(fractional coordinate * grid size), the same mapping as
+    # `Volume.frac_coords_to_voxel`. (Binning with `np.linspace` edges puts a coordinate
+    # that sits exactly on a voxel face, e.g. 0.75 on a grid of 364, in the wrong voxel,
+    # because the computed edge can be an ulp above the face.)
+    dims = np.array([nx - 1, ny - 1, nz - 1])
+    digitized_coords = (coords * dims).astype(int)
 
     indices, counts = np.unique(digitized_coords, return_counts=True, axis=0)
     i, j, k = indices.T
